@@ -320,6 +320,30 @@ def r7_wellformed_at_every_position(run, F):
            "%d functions parse types through parse_wellformed_type (7 counted: constant, member, parameter, signature, cast, statement, size-of)" % len(wf))
 
 
+def r8_verdict_on_the_stored_type(run, F):
+    """The type written in the source is *lowered* for its position (`&[]T` as a member becomes a slice pointer, ..) by
+    fix_type_for_flags, and the lowered type is what is stored and generated.  The legality predicates (can_be_struct_member,
+    can_be_word_member, can_be_parameter, can_be_returned, can_be_constant) therefore judge the lowered type: in every function of
+    the typer that lowers a type and asks a predicate, the predicate's receiver derives from the result of the lowering.  Asked
+    first, `&[]T` passes as "pointer to an array view" and is stored as the slice pointer the predicate forbids (E356)."""
+    from rules import origins
+    n = 0
+    for p, b in sorted(F.lib.bodies.items()):
+        if "hir" not in b or not F.rel(b["file"]).endswith("alpha/typer.rs") or "{closure" in p:
+            continue
+        fixes = [c for c in hirq.calls(b["hir"]) if (hirq.callee(c) or "").split("::")[-1] == "fix_type_for_flags"]
+        preds = [c for c in hirq.calls(b["hir"]) if c.get("k") == "MethodCall" and str(c.get("name", "")).startswith("can_be_")]
+        if not fixes or not preds:
+            continue
+        for c in preds:
+            n += 1
+            o = origins.origins(b["hir"], c["recv"], b.get("params", ()))
+            ok = any(k[0] == "call" and str(k[1]).split("::")[-1] == "fix_type_for_flags" for k in o)
+            run.ob("R8-VERDICT-ON-STORED-TYPE", "%s|%s" % (p.split("::")[-1] if "{" not in p.split("::")[-2] else p.split("::")[-2].strip("{}") + "::" + p.split("::")[-1], c.get("name")), ok, F.where(b, c),
+                   "%s is asked about a type that does not derive from fix_type_for_flags in this function: the verdict is about the written type, the stored type is the lowered one" % c.get("name"))
+    run.floor("R8-VERDICT-ON-STORED-TYPE", 5, "legality predicates asked next to a lowering in the typer (5 counted)")
+
+
 def check(run):
     F = run.facts("B")
     r7_wellformed_at_every_position(run, F)
@@ -329,6 +353,7 @@ def check(run):
     _c10.r1_sizes(run, F)          # the member sizes E380 adds up are the sizes of the LLVM types (shared with C10.R1)
     r1_order(run, F)
     r2_legality(run, F)
+    r8_verdict_on_the_stored_type(run, F)
     r3_extern(run, F)
     r4_emission(run, F)
     r5_determinism(run, F)
